@@ -1,8 +1,8 @@
 """C03 — system-matrix rows do not depend on symmetries, caching or request history.
 Lean: StirVerif/C03 (symmetry operations, decision trees, cache key, cache state machine; theorems in Props.lean).
 Tie: hand-written model + correspondence run (harness/c03_symmetries.cxx drives the real
-DataSymmetriesForBins_PET_CartesianGrid / ProjMatrixByBinUsingRayTracing / ProjMatrixElemsForOneBin).
-Oracle: every returned row against the row of a fresh matrix without symmetries and without cache."""
+DataSymmetriesForBins_PET_CartesianGrid / ProjMatrixByBinUsingRayTracing / ProjMatrixByBinUsingInterpolation / ProjMatrixElemsForOneBin).
+Oracle: every returned row against the row of a fresh matrix of the same class without symmetries and without cache."""
 import os, re
 import vlib
 import gen_gate
@@ -42,25 +42,38 @@ def main(tier, replay):
             chk.violation("oracle-missing", "the harness did not finish its oracle (no ORACLE-DONE line)", "no ORACLE-DONE", found_input=False)
     chk.coverage["tie_T_translator"] = tie_t
     vlib.standard_coverage(chk, stats,
-        "real DataSymmetriesForBins_PET_CartesianGrid (all 32 switch combinations x every bin of 4 fixed + 3 (thorough: 30) generated geometries + sampled bins of "
-        "special ones: view offset, shifted origin, odd views, mashing, TOF, anisotropic voxels, z origin error branch): find_basic_bin, "
+        "real DataSymmetriesForBins_PET_CartesianGrid (all 32 switch combinations x every bin of 7 fixed + 3 (thorough: 30) generated geometries + sampled bins of "
+        "special ones: view offset, shifted origin, odd views, mashing, anisotropic voxels, z origin error branch; generated ones now include TOF "
+        "(3/5/9 timing positions, TOF mashing 3) with span 1/3, view mashing and even image sizes, even spans 2 and 4, and outer segments cut off by "
+        "max_delta < R-1; timing positions != 0 on non-TOF data probe the timing-position swap of the swap_s operations): find_basic_bin, "
         "find_symmetry_operation_from_basic_bin, transform_bin_coordinates / view_segment_indices / image_coordinates / "
         "proj_matrix_elems_for_one_bin, effective switches, planes per ring / axial position, z offsets; "
-        "ProjMatrixByBinUsingRayTracing histories (get with repeats, clear_cache, enable_cache, store_only_basic_bins_in_cache, set_* + set_up, "
-        "set_up on other geometries including images that differ from the previous one in their index range only) with rows compared "
-        "token by token (hex floats) with the Lean cache state machine fed with the "
-        "ray-traced rows of the basic bins; ProjMatrixElemsForOneBin::merge on integer-valued rows. Comparison is exact (no tolerance). "
-        "Oracle (C++): every row returned in the histories and in sweeps over every bin x 32 switch combinations x 3 cache modes x rays "
-        "(1,2[,3]) x FOV shape, and every bin after set_up; requests; set_up for an image with another index range (3 cache modes), "
-        "equals the row of a fresh matrix with all symmetries off and no cache within the library's own tolerance "
-        "(2e-3 of the row maximum) unless a traced ray is parallel to a grid axis on a voxel boundary (geometric screen); exact: row carries "
-        "the requested bin, values >= 0, voxels inside the image (in z: a voxel outside the planes of the image but inside the axial "
-        "extent of the scanner is the known finding voxel-outside-image-in-z:...; beyond that extent it fails), no voxel twice, "
-        "op(basic bin) = bin.", extra)
-    chk.assumptions += ["the ray tracer (calculate_proj_matrix_elems_for_one_bin, TOF kernel) is an uninterpreted function in Lean",
+        "histories on ProjMatrixByBinUsingRayTracing AND ProjMatrixByBinUsingInterpolation (get with repeats, clear_cache, enable_cache, "
+        "store_only_basic_bins_in_cache, set_* incl. set_use_actual_detector_boundaries / parser + set_up, set_up on other geometries incl. TOF, "
+        "even-span and cut-off-segment data and images that differ in their index range only) with rows compared token by token (hex floats) with "
+        "the Lean cache state machine (set_up with the already_setup short cut for ray tracing, without it for interpolation) fed with the "
+        "directly computed rows of the basic bins; ProjMatrixElemsForOneBin::merge on integer-valued rows. Comparison is exact (no tolerance). "
+        "Oracle (C++): every row returned in the histories and in sweeps over every bin x 32 switch combinations (TOF data, "
+        "use_actual_detector_boundaries on the generated geometries and the interpolating matrix beyond the first two geometries: a sample of "
+        "8 in the quick tier) x 3 cache modes x {ray tracing: rays (1,2[,3]) x FOV shape x use_actual_detector_boundaries off/on; interpolation}, "
+        "and every bin after set_up for an image with another index range (3 cache modes, both matrix classes), "
+        "equals the row of a new matrix of the same class with all symmetries off and no cache within the library's own tolerance "
+        "(2e-3 of the row maximum) unless (ray tracing) a traced ray is parallel to a grid axis on a voxel boundary (geometric screen); exact: row carries "
+        "the requested bin, values >= 0, voxels inside the image (in z: ray tracing: a voxel outside the planes of the image but inside the axial "
+        "extent of the scanner is the known finding voxel-outside-image-in-z:...; interpolation: inside the axial support of the kernel "
+        "likewise; beyond that it fails), no voxel twice, op(basic bin) = bin. Two probes run set_up for a second geometry on one object and "
+        "compare with a new object (use_actual_detector_boundaries after span-3 data; interpolation after another z voxel size); where the "
+        "implementation fails a probe (known finding) the histories state the parameters again before each set_up, otherwise they do not. "
+        "Input classes where 'row differs' is a known finding (keys in known_findings.txt): use_actual_detector_boundaries with 90/180 degrees "
+        "symmetries at odd tangential positions; use_actual_detector_boundaries in oblique segments where phi comes out pi off for bin or basic "
+        "bin only; interpolation with x voxel size != y voxel size, 180 degrees symmetry, views beyond 135 degrees. Everything else is strict.", extra)
+    chk.assumptions += ["calculate_proj_matrix_elems_for_one_bin of both matrix classes (ray tracer, interpolation kernel, TOF kernel) is an uninterpreted function in Lean: "
+                        "that the directly computed row equals the symmetry-derived one is checked by the C++ oracle (and, for the LOR geometry, by the theorems over R)",
                         "a geometry of the model is what set_up compares (projection data info, voxel size, origin, index range, library ==); "
-                        "that symmetries object and ray tracer depend on nothing else is part of the model (checked by the oracle only)",
-                        "cylindrical scanner geometry only (BlocksOnCylindrical / Generic branches not modelled)",
+                        "that symmetries object and row computation depend on nothing else is part of the model (checked by the oracle and the two set_up probes only)",
+                        "which switches ProjMatrixByBinUsingRayTracing::set_up hands to the symmetries constructor when use_actual_detector_boundaries stays on "
+                        "(as they are / 90 and 180 degrees off, proposed repair C03-5) is read off the implementation by the harness and told to the model",
+                        "cylindrical scanner geometry only (BlocksOnCylindrical / Generic branches not modelled or run)",
                         "32-bit overflow not modelled; cache_key itself is private: observed only through rows returned from the cache",
                         "axial offsets are multiples of 1/4 plane (model carries them as integers)"]
     if audit:
